@@ -341,7 +341,8 @@ impl<'a> JsStr<'a> {
         // Parse numbers that begin with `0b`, `0o` and `0x`.
         if let Some(base) = base {
             let string = &string[2..];
-            if string.is_empty() {
+            // Only digits of the base may follow the prefix (`from_str_radix` would accept a sign).
+            if string.is_empty() || !string.bytes().all(|b| char::from(b).is_digit(base)) {
                 return f64::NAN;
             }
 
@@ -360,6 +361,12 @@ impl<'a> JsStr<'a> {
                 }
             }
             return value;
+        }
+
+        // Make sure that no signed variants of "inf", "infinity" or "nan" are parsed.
+        let unsigned = string.strip_prefix(['+', '-']).unwrap_or(string);
+        if !unsigned.starts_with(|c: char| c.is_ascii_digit() || c == '.') {
+            return f64::NAN;
         }
 
         fast_float2::parse(string).unwrap_or(f64::NAN)
